@@ -9,6 +9,7 @@ import Goat.Props.C14
 namespace Goat.Tie.C14
 open Goat
 
+theorem flag_teardownCancelsFirst : Generated.cfg.teardownCancelsFirst = true := by decide
 theorem flag_unaryDeferUnregister : Generated.cfg.unaryDeferUnregister = true := by decide
 theorem flag_openFailureTearsDown : Generated.cfg.openFailureTearsDown = true := by decide
 theorem flag_idAllocAtomic : Generated.cfg.idAllocAtomic = true := by decide
